@@ -82,6 +82,7 @@ Section Facts.
   Hypothesis F_rm : WAITER_REMOVED_ON_DELIVERY = true.
   Hypothesis F_expire : WAITERS_EXPIRED_UP_TO_NOW = true.
   Hypothesis F_insert : WAITER_INSERTED_FOR_SENDER = true.
+  Hypothesis F_own : WAITER_EXPIRES_BY_ITS_OWN_DEADLINE = true.
   Variables T cap : N.
 
   Lemma deliver_only_to_requester_s s k s' c :
@@ -114,43 +115,143 @@ Section Facts.
     cbn [table]. rewrite lookup_remove_key by exact Hn. reflexivity.
   Qed.
 
-  Lemma fold_remove_NoDupIds ds : forall t,
-    NoDupIds t -> NoDupIds (fold_left (fun t (d : N * echo_key) => remove_key t (snd d)) ds t).
+  Lemma remove_due_subset t d e : In e (remove_due t d) -> In e t.
+  Proof.
+    induction t as [|x t IH]; cbn [remove_due]; [contradiction|].
+    destruct (echo_eq (e_key x) (snd d)).
+    - destruct (WAITER_EXPIRES_BY_ITS_OWN_DEADLINE && negb (e_deadline x <=? fst d)); intros H; [exact H|right; exact H].
+    - intros [H|H]; [left; exact H|right; apply IH; exact H].
+  Qed.
+
+  Lemma remove_due_NoDupIds t d : NoDupIds t -> NoDupIds (remove_due t d).
+  Proof.
+    unfold NoDupIds. induction t as [|x t IH]; cbn [remove_due map]; intros H; [exact H|].
+    inversion H as [|? ? Hn Hd]; subst.
+    destruct (echo_eq (e_key x) (snd d)).
+    - destruct (WAITER_EXPIRES_BY_ITS_OWN_DEADLINE && negb (e_deadline x <=? fst d)); [exact H|exact Hd].
+    - cbn [map]. constructor; [|apply IH; exact Hd].
+      intros Hin. apply Hn. apply in_map_iff in Hin. destruct Hin as (e & He & Hin).
+      apply in_map_iff. exists e. split; [exact He|apply remove_due_subset in Hin; exact Hin].
+  Qed.
+
+  (* after deadline d was handled, a waiter that d's key still finds has a later deadline of its own *)
+  Lemma remove_due_gone t d :
+    NoDupIds t -> forall e, In e (remove_due t d) -> echo_eq (e_key e) (snd d) = true -> fst d < e_deadline e.
+  Proof.
+    unfold NoDupIds. induction t as [|x t IH]; cbn [remove_due map]; intros H e Hin He; [contradiction|].
+    inversion H as [|? ? Hn Hd]; subst.
+    destruct (echo_eq (e_key x) (snd d)) eqn:E.
+    - assert (Hother : In e t -> False).
+      { intros Hin'. apply Hn. apply in_map_iff. exists e. split; [|exact Hin'].
+        apply echo_eq_ids in E, He. congruence. }
+      destruct (WAITER_EXPIRES_BY_ITS_OWN_DEADLINE && negb (e_deadline x <=? fst d)) eqn:G.
+      + destruct Hin as [<-|Hin]; [|exfalso; apply Hother; exact Hin].
+        apply andb_true_iff in G. destruct G as [_ G]. lia.
+      + exfalso. apply Hother. exact Hin.
+    - destruct Hin as [<-|Hin]; [congruence|]. apply IH; assumption.
+  Qed.
+
+  Lemma fold_remove_due_NoDupIds ds : forall t, NoDupIds t -> NoDupIds (fold_left remove_due ds t).
   Proof.
     induction ds as [|d ds IH]; intros t H; cbn [fold_left]; [exact H|].
-    apply IH. apply remove_key_NoDupIds. exact H.
+    apply IH. apply remove_due_NoDupIds. exact H.
   Qed.
 
-  Lemma fold_remove_subset ds : forall t e,
-    In e (fold_left (fun t (d : N * echo_key) => remove_key t (snd d)) ds t) -> In e t.
+  Lemma fold_remove_due_subset ds : forall t e, In e (fold_left remove_due ds t) -> In e t.
   Proof.
     induction ds as [|d ds IH]; intros t e H; cbn [fold_left] in H; [exact H|].
-    apply IH in H. apply remove_key_subset in H. exact H.
+    apply IH in H. apply remove_due_subset in H. exact H.
   Qed.
 
-  Lemma fold_remove_gone ds : forall t (d : N * echo_key),
+  Lemma fold_remove_due_gone ds : forall t (d : N * echo_key),
     NoDupIds t -> In d ds ->
-    forall e, In e (fold_left (fun t (d : N * echo_key) => remove_key t (snd d)) ds t) ->
-              echo_eq (e_key e) (snd d) = false.
+    forall e, In e (fold_left remove_due ds t) -> echo_eq (e_key e) (snd d) = true -> fst d < e_deadline e.
   Proof.
-    induction ds as [|x ds IH]; intros t d Hn Hin e He; [contradiction|].
+    induction ds as [|x ds IH]; intros t d Hn Hin e He Hk; [contradiction|].
     cbn [fold_left] in He. destruct Hin as [->|Hin].
-    - apply fold_remove_subset in He. eapply remove_key_gone; eassumption.
-    - eapply IH; [apply remove_key_NoDupIds; exact Hn|exact Hin|exact He].
+    - apply fold_remove_due_subset in He. eapply remove_due_gone; eassumption.
+    - eapply IH; [apply remove_due_NoDupIds; exact Hn|exact Hin|exact He|exact Hk].
   Qed.
 
-  (* a request whose deadline has passed is forgotten *)
-  Lemma expired_forgotten_s s now d s' o :
-    NoDupIds (table s) -> In d (deadlines s) -> fst d <= now ->
+  (* every waiter has its deadline in the list, under a key that finds it (IcmpSink::write makes both together) *)
+  Definition well_timed (s : wstate) : Prop :=
+    forall e, In e (table s) ->
+              exists k, In (e_deadline e, k) (deadlines s) /\ echo_eq (e_key e) k = true.
+
+  (* when maintain_listeners has run at [now], no waiter and no deadline that was due is left: the table holds
+     requests younger than the timeout only *)
+  Lemma expired_forgotten_s s now s' o :
+    NoDupIds (table s) -> well_timed s ->
     wstep T cap s (WExpire now) = (s', o) ->
-    (forall e, In e (table s') -> echo_eq (e_key e) (snd d) = false)
-    /\ ~ In d (deadlines s').
+    (forall e, In e (table s') -> now < e_deadline e)
+    /\ (forall d, In d (deadlines s') -> now < fst d).
   Proof.
-    intros Hn Hin Hle. cbn [wstep]. rewrite F_expire. cbn [negb]. intros H. inversion H; subst.
+    intros Hn Hw. cbn [wstep]. rewrite F_expire. cbn [negb]. intros H. inversion H; subst.
     cbn [table deadlines]. split.
-    - intros e He. eapply fold_remove_gone; [exact Hn| |exact He].
-      apply filter_In. split; [exact Hin|lia].
-    - intros Hd. apply filter_In in Hd. destruct Hd as [_ Hd]. lia.
+    - intros e He. destruct (N.lt_ge_cases now (e_deadline e)) as [Hlt|Hge]; [exact Hlt|exfalso].
+      destruct (Hw e (fold_remove_due_subset _ _ _ He)) as (k & Hd & Hk).
+      assert (Hf : In (e_deadline e, k) (filter (fun d : N * echo_key => fst d <=? now) (deadlines s)))
+        by (apply filter_In; split; [exact Hd|cbn [fst]; lia]).
+      pose proof (fold_remove_due_gone _ _ _ Hn Hf e He Hk) as Hlt. cbn [fst] in Hlt. lia.
+    - intros d Hd. apply filter_In in Hd. destruct Hd as [_ Hd]. lia.
+  Qed.
+
+  (* ... and only those: a waiter whose own deadline lies ahead survives every expiry run, whatever older
+     deadlines of the same request are still in the list *)
+  Lemma remove_due_keeps t d e : In e t -> fst d < e_deadline e -> In e (remove_due t d).
+  Proof.
+    induction t as [|x t IH]; cbn [remove_due]; intros Hin Hlt; [contradiction|].
+    destruct (echo_eq (e_key x) (snd d)).
+    - rewrite F_own. cbn [andb]. destruct (e_deadline x <=? fst d) eqn:L; cbn [negb]; [|exact Hin].
+      destruct Hin as [->|Hin]; [lia|exact Hin].
+    - destruct Hin as [->|Hin]; [left; reflexivity|right; apply IH; assumption].
+  Qed.
+
+  Lemma remove_due_lookup t d k e :
+    lookup t k = Some e -> fst d < e_deadline e -> lookup (remove_due t d) k = Some e.
+  Proof.
+    induction t as [|x t IH]; cbn [remove_due lookup]; intros L Hlt; [discriminate|].
+    destruct (echo_eq (e_key x) k) eqn:Ek.
+    - inversion L; subst x.
+      destruct (echo_eq (e_key e) (snd d)).
+      + rewrite F_own. cbn [andb]. destruct (e_deadline e <=? fst d) eqn:G; [lia|].
+        cbn [negb lookup]. rewrite Ek. reflexivity.
+      + cbn [lookup]. rewrite Ek. reflexivity.
+    - destruct (echo_eq (e_key x) (snd d)).
+      + destruct (WAITER_EXPIRES_BY_ITS_OWN_DEADLINE && negb (e_deadline x <=? fst d)).
+        * cbn [lookup]. rewrite Ek. exact L.
+        * exact L.
+      + cbn [lookup]. rewrite Ek. apply IH; assumption.
+  Qed.
+
+  Lemma fold_remove_due_keeps ds now e : forall t,
+    (forall d, In d ds -> fst d <= now) -> now < e_deadline e ->
+    In e t -> In e (fold_left remove_due ds t).
+  Proof.
+    induction ds as [|d ds IH]; intros t Hds Hlt Hin; cbn [fold_left]; [exact Hin|].
+    apply IH; [intros d' Hd'; apply Hds; right; exact Hd'|exact Hlt|].
+    apply remove_due_keeps; [exact Hin|]. specialize (Hds d (or_introl eq_refl)). lia.
+  Qed.
+
+  Lemma fold_remove_due_lookup ds now k e : forall t,
+    (forall d, In d ds -> fst d <= now) -> now < e_deadline e ->
+    lookup t k = Some e -> lookup (fold_left remove_due ds t) k = Some e.
+  Proof.
+    induction ds as [|d ds IH]; intros t Hds Hlt L; cbn [fold_left]; [exact L|].
+    apply IH; [intros d' Hd'; apply Hds; right; exact Hd'|exact Hlt|].
+    apply remove_due_lookup; [exact L|]. specialize (Hds d (or_introl eq_refl)). lia.
+  Qed.
+
+  Lemma expired_all_due (ds : list (N * echo_key)) now :
+    forall d, In d (filter (fun d : N * echo_key => fst d <=? now) ds) -> fst d <= now.
+  Proof. intros d H. apply filter_In in H. destruct H as [_ H]. lia. Qed.
+
+  Lemma pending_until_its_timeout_s s now s' o e :
+    wstep T cap s (WExpire now) = (s', o) ->
+    In e (table s) -> now < e_deadline e -> In e (table s').
+  Proof.
+    cbn [wstep]. rewrite F_expire. cbn [negb]. intros H Hin Hlt. inversion H; subst. cbn [table].
+    eapply fold_remove_due_keeps; [apply expired_all_due|exact Hlt|exact Hin].
   Qed.
 
   Lemma echo_eq_refl k : echo_eq k k = true.
@@ -165,9 +266,9 @@ Section Facts.
   Definition compatible (t : list entry) (k : echo_key) : Prop :=
     forall e, In e t -> ids (e_key e) = ids k -> echo_eq (e_key e) k = true.
 
-  Lemma insert_key_ids t k c :
+  Lemma insert_key_ids t k c dl :
     compatible t k ->
-    map (fun e => ids (e_key e)) (insert_key t k c) =
+    map (fun e => ids (e_key e)) (insert_key t k c dl) =
     if existsb (fun e => echo_eq (e_key e) k) t then map (fun e => ids (e_key e)) t
     else map (fun e => ids (e_key e)) t ++ [ids k].
   Proof.
@@ -177,8 +278,8 @@ Section Facts.
     destruct (existsb _ t); reflexivity.
   Qed.
 
-  Lemma insert_key_NoDupIds t k c :
-    NoDupIds t -> compatible t k -> NoDupIds (insert_key t k c).
+  Lemma insert_key_NoDupIds t k c dl :
+    NoDupIds t -> compatible t k -> NoDupIds (insert_key t k c dl).
   Proof.
     unfold NoDupIds. intros Hn Hc. rewrite insert_key_ids by exact Hc.
     destruct (existsb (fun e => echo_eq (e_key e) k) t) eqn:Ex; [exact Hn|].
@@ -190,13 +291,13 @@ Section Facts.
     congruence.
   Qed.
 
-  Lemma lookup_insert_key t k c :
-    exists e, lookup (insert_key t k c) k = Some e /\ e_client e = c.
+  Lemma lookup_insert_key t k c dl :
+    exists e, lookup (insert_key t k c dl) k = Some e /\ e_client e = c /\ e_deadline e = dl.
   Proof.
     induction t as [|x t IH]; cbn [insert_key lookup].
-    - cbn [e_key]. rewrite echo_eq_refl. eexists. split; reflexivity.
+    - cbn [e_key]. rewrite echo_eq_refl. eexists. repeat split; reflexivity.
     - destruct (echo_eq (e_key x) k) eqn:E; cbn [lookup e_key]; rewrite E.
-      + eexists. split; reflexivity.
+      + eexists. repeat split; reflexivity.
       + exact IH.
   Qed.
 
@@ -207,7 +308,123 @@ Section Facts.
     exists s2, wstep T cap s1 (WPacket k) = (s2, Some c).
   Proof.
     cbn [wstep]. rewrite F_insert, F_lookup. intros H Hq. inversion H; subst. cbn [negb table queues] in *.
-    destruct (lookup_insert_key (table s) k c) as (e & He & Hc). rewrite He, Hc.
+    destruct (lookup_insert_key (table s) k c (now + T)) as (e & He & Hc & _). rewrite He, Hc.
     destruct (queue_len (queues s) c <? cap) eqn:E; [|lia]. eexists. reflexivity.
+  Qed.
+
+  (* ... and it still is at any instant before the request's own timeout, whatever deadlines earlier requests of the
+     same identifier and sequence number have left in the list (a client whose sequence numbers wrap, or that
+     repeats a request right after its answer) *)
+  Lemma reply_while_pending_s s c k t s1 o1 now s2 o2 :
+    wstep T cap s (WSend c k t) = (s1, o1) ->
+    now < t + T ->
+    wstep T cap s1 (WExpire now) = (s2, o2) ->
+    queue_len (queues s2) c < cap ->
+    exists s3, wstep T cap s2 (WPacket k) = (s3, Some c).
+  Proof.
+    cbn [wstep]. rewrite F_insert, F_lookup, F_expire. cbn [negb]. intros H Hlt H2 Hq.
+    inversion H; subst. inversion H2; subst. cbn [table deadlines queues] in *.
+    destruct (lookup_insert_key (table s) k c (t + T)) as (e & He & Hc & Hd).
+    rewrite (fold_remove_due_lookup _ now k e _ (expired_all_due _ now)) by (rewrite ?Hd; assumption).
+    rewrite Hc. destruct (queue_len (queues s) c <? cap) eqn:E; [|lia]. eexists. reflexivity.
+  Qed.
+
+  (* ---- a request that could not be sent ---- *)
+
+  Lemma insert_key_other t k c dl e : In e t -> echo_eq (e_key e) k = false -> In e (insert_key t k c dl).
+  Proof.
+    induction t as [|x t IH]; cbn [insert_key]; intros Hin He; [contradiction|].
+    destruct (echo_eq (e_key x) k) eqn:E.
+    - destruct Hin as [->|Hin]; [congruence|right; exact Hin].
+    - destruct Hin as [->|Hin]; [left; reflexivity|right; apply IH; assumption].
+  Qed.
+
+  Lemma remove_mine_other t k dl e : In e t -> echo_eq (e_key e) k = false -> In e (remove_mine t k dl).
+  Proof.
+    induction t as [|x t IH]; cbn [remove_mine]; intros Hin He; [contradiction|].
+    destruct (echo_eq (e_key x) k) eqn:E.
+    - destruct Hin as [->|Hin]; [congruence|]. destruct (e_deadline x =? dl); [exact Hin|right; exact Hin].
+    - destruct Hin as [->|Hin]; [left; reflexivity|right; apply IH; assumption].
+  Qed.
+
+  Lemma remove_mine_is_remove_key t k dl e :
+    lookup t k = Some e -> e_deadline e = dl -> remove_mine t k dl = remove_key t k.
+  Proof.
+    induction t as [|x t IH]; cbn [lookup remove_mine remove_key]; intros L Hd; [discriminate|].
+    destruct (echo_eq (e_key x) k).
+    - inversion L; subst x. rewrite Hd, N.eqb_refl. reflexivity.
+    - f_equal. apply IH; assumption.
+  Qed.
+
+  (* the other pending requests (of this and of every other client) are untouched, and so are the queues *)
+  Lemma failed_send_spares_the_others_s s c k now s' o :
+    wstep T cap s (WSendFailed c k now) = (s', o) ->
+    o = None /\ queues s' = queues s
+    /\ forall e, In e (table s) -> echo_eq (e_key e) k = false -> In e (table s').
+  Proof.
+    cbn [wstep]. rewrite F_insert. intros H. inversion H; subst. cbn [table queues].
+    split; [reflexivity|]. split; [reflexivity|].
+    intros e Hin He. apply remove_mine_other; [|exact He]. apply insert_key_other; assumption.
+  Qed.
+
+  (* no waiter is left for the request that was not sent: a packet that looks like its answer is not reported *)
+  Lemma failed_send_leaves_no_waiter_s s c k now s' o :
+    NoDupIds (table s) -> compatible (table s) k ->
+    wstep T cap s (WSendFailed c k now) = (s', o) ->
+    wstep T cap s' (WPacket k) = (s', None).
+  Proof.
+    intros Hn Hc. cbn [wstep]. rewrite F_insert, F_lookup. intros H. inversion H; subst. cbn [negb table].
+    destruct (lookup_insert_key (table s) k c (now + T)) as (e & He & _ & Hd).
+    rewrite (remove_mine_is_remove_key _ _ _ _ He Hd).
+    rewrite lookup_remove_key by (apply insert_key_NoDupIds; assumption). reflexivity.
+  Qed.
+
+  (* ---- the hypothesis of expired_forgotten_s is an invariant ---- *)
+
+  Lemma insert_key_In t k c dl e :
+    In e (insert_key t k c dl) -> In e t \/ (e_deadline e = dl /\ echo_eq (e_key e) k = true).
+  Proof.
+    induction t as [|x t IH]; cbn [insert_key].
+    - intros [<-|[]]. right. cbn [e_deadline e_key]. split; [reflexivity|apply echo_eq_refl].
+    - destruct (echo_eq (e_key x) k) eqn:E.
+      + intros [<-|H]; [right; cbn [e_deadline e_key]; split; [reflexivity|exact E]|left; right; exact H].
+      + intros [<-|H]; [left; left; reflexivity|]. destruct (IH H) as [H'|H']; [left; right; exact H'|right; exact H'].
+  Qed.
+
+  Lemma remove_mine_subset t k dl e : In e (remove_mine t k dl) -> In e t.
+  Proof.
+    induction t as [|x t IH]; cbn [remove_mine]; [contradiction|].
+    destruct (echo_eq (e_key x) k).
+    - destruct (e_deadline x =? dl); intros H; [right; exact H|exact H].
+    - intros [H|H]; [left; exact H|right; apply IH; exact H].
+  Qed.
+
+  Lemma if_remove_subset (b : bool) t k e : In e (if b then remove_key t k else t) -> In e t.
+  Proof. destruct b; [apply remove_key_subset|exact (fun H => H)]. Qed.
+
+  Lemma well_timed_step s o s' out :
+    NoDupIds (table s) -> well_timed s -> wstep T cap s o = (s', out) -> well_timed s'.
+  Proof.
+    intros Hn Hw. destruct o as [c k now|c k now|k|c|now]; cbn [wstep].
+    - rewrite F_insert. intros H; inversion H; subst. intros e He. cbn [table deadlines] in *.
+      apply insert_key_In in He. destruct He as [He|[Hd Hk]].
+      + destruct (Hw e He) as (k' & Hin & Hk'). exists k'. split; [apply in_or_app; left; exact Hin|exact Hk'].
+      + exists k. split; [apply in_or_app; right; left; rewrite Hd; reflexivity|exact Hk].
+    - rewrite F_insert. intros H; inversion H; subst. intros e He. cbn [table deadlines] in *.
+      apply remove_mine_subset in He. apply insert_key_In in He. destruct He as [He|[Hd Hk]].
+      + destruct (Hw e He) as (k' & Hin & Hk'). exists k'. split; [apply in_or_app; left; exact Hin|exact Hk'].
+      + exists k. split; [apply in_or_app; right; left; rewrite Hd; reflexivity|exact Hk].
+    - destruct (negb WAITER_LOOKUP_BY_REQUEST); [intros H; inversion H; subst; exact Hw|].
+      destruct (lookup (table s) k) as [x|]; [|intros H; inversion H; subst; exact Hw].
+      destruct (queue_len (queues s) (e_client x) <? cap); intros H; inversion H; subst;
+        intros e He; cbn [table deadlines set_table] in *.
+      + apply Hw. first [exact He|apply remove_key_subset in He; exact He|apply if_remove_subset in He; exact He].
+      + apply Hw. first [exact He|apply remove_key_subset in He; exact He|apply if_remove_subset in He; exact He].
+    - intros H; inversion H; subst. exact Hw.
+    - intros H. destruct (expired_forgotten_s s now s' out Hn Hw H) as [Hlive _].
+      revert H. rewrite F_expire. cbn [negb]. intros H. inversion H; subst. intros e He.
+      pose proof (Hlive e He) as Hlt. cbn [table deadlines] in *.
+      destruct (Hw e (fold_remove_due_subset _ _ _ He)) as (k' & Hin & Hk'). exists k'. split; [|exact Hk'].
+      apply filter_In. split; [exact Hin|]. cbn [fst]. apply negb_true_iff. apply N.leb_gt. exact Hlt.
   Qed.
 End Facts.
